@@ -60,6 +60,9 @@ func dataOf(m protoreflect.Message) []byte {
 	return m.Get(m.Descriptor().Fields().ByName("data")).Bytes()
 }
 
+// no generated body holds more messages than this
+const streamFxMaxMsgs = 400000
+
 func newStreamFx(opts ...larking.MuxOption) (*streamFx, error) {
 	s := &streamFx{}
 	recvLoop := func(fx *Fixture, st grpc.ServerStream, body bool) error {
@@ -88,6 +91,11 @@ func newStreamFx(opts ...larking.MuxOption) (*streamFx, error) {
 			}
 			s.got = append(s.got, d)
 			s.gotSizes = append(s.gotSizes, proto.Size(m))
+			if len(s.got) > streamFxMaxMsgs { // a stream that never ends: stop draining it (the run has to end)
+				s.final = fmt.Sprintf("runaway: more than %d messages received and no end of stream", streamFxMaxMsgs)
+				s.mu.Unlock()
+				return status.Error(codes.Aborted, "runaway stream")
+			}
 			s.mu.Unlock()
 		}
 	}
